@@ -159,6 +159,7 @@ def run(prog, rep, tier, cfg):
                 rep.need('K8', 'tolerated-payout-fallback:%s' % hn.split('::')[-1], c15.fallback_to_burn(prog, X, H, c, burns), 'a tolerated failed payout must fall back into the burn (no FIL stranded)', c.where)
     # ---- running totals (amounts, power, datacap) accumulated in loops keep their earlier contributions
     X.accumulator_integrity('K12', 'running-totals', [c for c in prog.crates if c.startswith('fil_actor')], 'running totals of amounts')
+    X.no_dropped_results('K14', 'results-not-discarded', [c for c in prog.crates if c.startswith('fil_actor')], 'no Result of a call is discarded')
 
 
 
